@@ -34,22 +34,23 @@ var c02Collision = map[string]string{
 	"webhook-types-wrapped":             "on:\n  pull_request:\n    types: [bogus, nope,\n wrong]\n    branches: ['[',\n 'a b']\njobs:\n  a:\n    runs-on: ubuntu-latest\n    steps:\n      - run: echo\n",
 	"needs-wrapped":                     "on: push\njobs:\n  a:\n    needs: [x, b,\n y, c]\n    runs-on: ubuntu-latest\n    steps:\n      - run: echo\n  b:\n    needs: [c,\n a]\n    runs-on: ubuntu-latest\n    steps:\n      - run: echo\n  c:\n    needs: [a]\n    runs-on: ubuntu-latest\n    steps:\n      - run: echo\n",
 	// object filters whose candidates have different shapes (any choice among them must not show)
-	"object-filter-candidates":  "on: push\njobs:\n  build:\n    runs-on: ubuntu-latest\n    outputs:\n      version: v\n    steps:\n      - run: echo\n  test:\n    runs-on: ubuntu-latest\n    outputs:\n      report: r\n    steps:\n      - run: echo\n  lint:\n    runs-on: ubuntu-latest\n    outputs:\n      version: v\n      extra: e\n    steps:\n      - run: echo\n  last:\n    needs: [build, test, lint]\n    runs-on: ubuntu-latest\n    strategy:\n      matrix:\n        cfg: [{name: a}]\n        other: [{flag: b}]\n    services:\n      db:\n        image: pg\n      cache:\n        image: redis\n    steps:\n      - id: s1\n        uses: actions/checkout@v4\n      - id: s2\n        uses: actions/cache@v4\n        with:\n          path: p\n          key: k\n      - run: echo ${{ toJSON(needs.*.outputs.version) }} ${{ join(needs.*.outputs.report, ',') }} ${{ toJSON(needs.*.outputs.nosuch) }} ${{ toJSON(needs.*.result) }}\n      - run: echo ${{ toJSON(steps.*.outputs.ref) }} ${{ toJSON(steps.*.outputs.cache-hit) }} ${{ toJSON(matrix.*.name) }} ${{ toJSON(matrix.*.flag) }} ${{ toJSON(job.services.*.id) }} ${{ toJSON(job.services.*.nosuch) }}\n",
-	"needs-two-disjoint-cycles": "on: push\njobs:\n  a:\n    needs: b\n    runs-on: ubuntu-latest\n    steps:\n      - run: echo\n  b:\n    needs: a\n    runs-on: ubuntu-latest\n    steps:\n      - run: echo\n  c:\n    needs: d\n    runs-on: ubuntu-latest\n    steps:\n      - run: echo\n  d:\n    needs: c\n    runs-on: ubuntu-latest\n    steps:\n      - run: echo\n",
-	"needs-overlapping-cycles":  "on: push\njobs:\n  a:\n    needs: [b, c]\n    runs-on: ubuntu-latest\n    steps:\n      - run: echo\n  b:\n    needs: [a]\n    runs-on: ubuntu-latest\n    steps:\n      - run: echo\n  c:\n    needs: [a, b]\n    runs-on: ubuntu-latest\n    steps:\n      - run: echo\n",
-	"needs-dangling":            "on: push\njobs:\n  a:\n    needs: [x, y]\n    runs-on: ubuntu-latest\n    steps:\n      - run: echo\n  b:\n    needs: [z, a, w]\n    runs-on: ubuntu-latest\n    steps:\n      - run: echo\n",
-	"permissions-unknown":       "on: push\npermissions:\n  foo: read\n  bar: write\n  contents: bogus\njobs:\n  a:\n    permissions:\n      baz: read\n      qux: none\n    runs-on: ubuntu-latest\n    steps:\n      - run: echo\n",
-	"duplicate-ids":             "on: push\njobs:\n  a:\n    runs-on: ubuntu-latest\n    steps:\n      - id: s\n        run: echo\n      - id: S\n        run: echo\n      - id: s\n        run: echo\n  A:\n    runs-on: ubuntu-latest\n    steps:\n      - run: echo\n",
-	"object-filter-untrusted":   "on: pull_request\njobs:\n  a:\n    runs-on: ubuntu-latest\n    steps:\n      - run: echo ${{ github.event.*.body }} ${{ github.event.pull_request.*.ref }} ${{ github.event.commits.*.author.* }}\n      - run: echo ${{ toJSON(github.event.*.title) }}\n",
-	"undefined-things":          "on: push\njobs:\n  a:\n    runs-on: ubuntu-latest\n    strategy:\n      matrix:\n        x: [1, 2]\n        y: [a, b]\n        z: [c]\n    steps:\n      - run: echo ${{ matrix.nope }} ${{ steps.nope.outputs.x }} ${{ needs.nope }} ${{ nosuch.x }} ${{ nosuchfn() }} ${{ env.FOO.bar }}\n        env:\n          'a b': 1\n          'c=d': 2\n          'e&f': 3\n",
-	"matrix-duplicates":         "on: push\njobs:\n  a:\n    runs-on: ubuntu-latest\n    strategy:\n      matrix:\n        x: [1, 1, 2, 2]\n        y: [{a: 1, b: 2}, {b: 2, a: 1}]\n        include:\n          - x: 1\n            w: 2\n        exclude:\n          - nope: 1\n            nada: 2\n          - x: 3\n            y: 4\n    steps:\n      - run: echo\n",
-	"webhook-types":             "on:\n  issues:\n    types: [bogus, nope]\n  pull_request:\n    types: [wrong]\n    branches: ['[', 'a b']\n  bogus_event:\n  workflow_dispatch:\n    inputs:\n      a:\n        type: choice\n      b:\n        type: nope\n        options: [x]\njobs:\n  a:\n    runs-on: ubuntu-latest\n    steps:\n      - run: echo ${{ inputs.a }} ${{ inputs.zzz }} ${{ github.event.inputs.qqq }}\n",
-	"shell-names":               "on: push\ndefaults:\n  run:\n    shell: nosuch\njobs:\n  a:\n    runs-on: windows-latest\n    defaults:\n      run:\n        shell: zsh\n    steps:\n      - run: echo\n        shell: fish\n      - run: echo\n  b:\n    runs-on: [ubuntu-latest, windows-latest]\n    steps:\n      - run: echo\n        shell: cmd\n",
-	"with-unknown-inputs":       "on: push\njobs:\n  a:\n    runs-on: ubuntu-latest\n    steps:\n      - uses: actions/checkout@v4\n        with:\n          bogus_one: 1\n          bogus_two: 2\n          BOGUS_three: 3\n      - uses: actions/cache@v4\n",
-	"deprecated+ifcond":         "on: push\njobs:\n  a:\n    runs-on: ubuntu-latest\n    if: ${{ true }} && false\n    steps:\n      - run: |\n          echo '::set-output name=a::b'\n          echo '::save-state name=a::b'\n          echo '::set-env name=a::b'\n          echo '::add-path::b'\n        if: ${{ false }} || true\n",
-	"credentials+container":     "on: push\njobs:\n  a:\n    runs-on: ubuntu-latest\n    container:\n      image: x\n      credentials:\n        username: u\n        password: plain\n    services:\n      s1:\n        image: y\n        credentials:\n          username: u\n          password: plain\n      s2:\n        image: z\n        credentials:\n          username: u\n          password: plain2\n    steps:\n      - run: echo\n",
-	"matrix-include-type-merge": "on: push\njobs:\n  a:\n    runs-on: ubuntu-latest\n    strategy:\n      matrix:\n        include:\n          - ${{ env }}\n          - ${{ fromJSON('{\"a\":1,\"b\":true,\"c\":\"x\",\"d\":null}') }}\n          - ${{ vars }}\n          - ${{ fromJSON('{\"a\":\"s\",\"e\":[1],\"f\":{\"g\":1}}') }}\n          - a: 1.5\n            h: {i: j}\n    steps:\n      - run: echo ${{ matrix.zz.yy }} ${{ matrix.a.b }} ${{ matrix.e.f }} ${{ matrix.f.g.h }} ${{ matrix.h.i.j }} ${{ toJSON(matrix) == 1 }}\n",
-	"workflow-call-self":        "on:\n  workflow_call:\n    inputs:\n      a:\n        type: string\n      b:\n        type: number\n        required: true\n    secrets:\n      s:\n        required: true\n    outputs:\n      o1:\n        value: ${{ jobs.a.outputs.nope }}\n      o2:\n        value: ${{ jobs.nope.outputs.x }}\njobs:\n  a:\n    runs-on: ubuntu-latest\n    outputs:\n      x: y\n    steps:\n      - run: echo ${{ inputs.zzz }} ${{ secrets.qqq }}\n",
+	"object-filter-candidates":     "on: push\njobs:\n  build:\n    runs-on: ubuntu-latest\n    outputs:\n      version: v\n    steps:\n      - run: echo\n  test:\n    runs-on: ubuntu-latest\n    outputs:\n      report: r\n    steps:\n      - run: echo\n  lint:\n    runs-on: ubuntu-latest\n    outputs:\n      version: v\n      extra: e\n    steps:\n      - run: echo\n  last:\n    needs: [build, test, lint]\n    runs-on: ubuntu-latest\n    strategy:\n      matrix:\n        cfg: [{name: a}]\n        other: [{flag: b}]\n    services:\n      db:\n        image: pg\n      cache:\n        image: redis\n    steps:\n      - id: s1\n        uses: actions/checkout@v4\n      - id: s2\n        uses: actions/cache@v4\n        with:\n          path: p\n          key: k\n      - run: echo ${{ toJSON(needs.*.outputs.version) }} ${{ join(needs.*.outputs.report, ',') }} ${{ toJSON(needs.*.outputs.nosuch) }} ${{ toJSON(needs.*.result) }}\n      - run: echo ${{ toJSON(steps.*.outputs.ref) }} ${{ toJSON(steps.*.outputs.cache-hit) }} ${{ toJSON(matrix.*.name) }} ${{ toJSON(matrix.*.flag) }} ${{ toJSON(job.services.*.id) }} ${{ toJSON(job.services.*.nosuch) }}\n",
+	"needs-two-disjoint-cycles":    "on: push\njobs:\n  a:\n    needs: b\n    runs-on: ubuntu-latest\n    steps:\n      - run: echo\n  b:\n    needs: a\n    runs-on: ubuntu-latest\n    steps:\n      - run: echo\n  c:\n    needs: d\n    runs-on: ubuntu-latest\n    steps:\n      - run: echo\n  d:\n    needs: c\n    runs-on: ubuntu-latest\n    steps:\n      - run: echo\n",
+	"needs-overlapping-cycles":     "on: push\njobs:\n  a:\n    needs: [b, c]\n    runs-on: ubuntu-latest\n    steps:\n      - run: echo\n  b:\n    needs: [a]\n    runs-on: ubuntu-latest\n    steps:\n      - run: echo\n  c:\n    needs: [a, b]\n    runs-on: ubuntu-latest\n    steps:\n      - run: echo\n",
+	"needs-dangling":               "on: push\njobs:\n  a:\n    needs: [x, y]\n    runs-on: ubuntu-latest\n    steps:\n      - run: echo\n  b:\n    needs: [z, a, w]\n    runs-on: ubuntu-latest\n    steps:\n      - run: echo\n",
+	"permissions-unknown":          "on: push\npermissions:\n  foo: read\n  bar: write\n  contents: bogus\njobs:\n  a:\n    permissions:\n      baz: read\n      qux: none\n    runs-on: ubuntu-latest\n    steps:\n      - run: echo\n",
+	"duplicate-ids":                "on: push\njobs:\n  a:\n    runs-on: ubuntu-latest\n    steps:\n      - id: s\n        run: echo\n      - id: S\n        run: echo\n      - id: s\n        run: echo\n  A:\n    runs-on: ubuntu-latest\n    steps:\n      - run: echo\n",
+	"object-filter-untrusted":      "on: pull_request\njobs:\n  a:\n    runs-on: ubuntu-latest\n    steps:\n      - run: echo ${{ github.event.*.body }} ${{ github.event.pull_request.*.ref }} ${{ github.event.commits.*.author.* }}\n      - run: echo ${{ toJSON(github.event.*.title) }}\n",
+	"undefined-things":             "on: push\njobs:\n  a:\n    runs-on: ubuntu-latest\n    strategy:\n      matrix:\n        x: [1, 2]\n        y: [a, b]\n        z: [c]\n    steps:\n      - run: echo ${{ matrix.nope }} ${{ steps.nope.outputs.x }} ${{ needs.nope }} ${{ nosuch.x }} ${{ nosuchfn() }} ${{ env.FOO.bar }}\n        env:\n          'a b': 1\n          'c=d': 2\n          'e&f': 3\n",
+	"matrix-duplicates":            "on: push\njobs:\n  a:\n    runs-on: ubuntu-latest\n    strategy:\n      matrix:\n        x: [1, 1, 2, 2]\n        y: [{a: 1, b: 2}, {b: 2, a: 1}]\n        include:\n          - x: 1\n            w: 2\n        exclude:\n          - nope: 1\n            nada: 2\n          - x: 3\n            y: 4\n    steps:\n      - run: echo\n",
+	"webhook-types":                "on:\n  issues:\n    types: [bogus, nope]\n  pull_request:\n    types: [wrong]\n    branches: ['[', 'a b']\n  bogus_event:\n  workflow_dispatch:\n    inputs:\n      a:\n        type: choice\n      b:\n        type: nope\n        options: [x]\njobs:\n  a:\n    runs-on: ubuntu-latest\n    steps:\n      - run: echo ${{ inputs.a }} ${{ inputs.zzz }} ${{ github.event.inputs.qqq }}\n",
+	"shell-names":                  "on: push\ndefaults:\n  run:\n    shell: nosuch\njobs:\n  a:\n    runs-on: windows-latest\n    defaults:\n      run:\n        shell: zsh\n    steps:\n      - run: echo\n        shell: fish\n      - run: echo\n  b:\n    runs-on: [ubuntu-latest, windows-latest]\n    steps:\n      - run: echo\n        shell: cmd\n",
+	"with-unknown-inputs":          "on: push\njobs:\n  a:\n    runs-on: ubuntu-latest\n    steps:\n      - uses: actions/checkout@v4\n        with:\n          bogus_one: 1\n          bogus_two: 2\n          BOGUS_three: 3\n      - uses: actions/cache@v4\n",
+	"deprecated+ifcond":            "on: push\njobs:\n  a:\n    runs-on: ubuntu-latest\n    if: ${{ true }} && false\n    steps:\n      - run: |\n          echo '::set-output name=a::b'\n          echo '::save-state name=a::b'\n          echo '::set-env name=a::b'\n          echo '::add-path::b'\n        if: ${{ false }} || true\n",
+	"credentials+container":        "on: push\njobs:\n  a:\n    runs-on: ubuntu-latest\n    container:\n      image: x\n      credentials:\n        username: u\n        password: plain\n    services:\n      s1:\n        image: y\n        credentials:\n          username: u\n          password: plain\n      s2:\n        image: z\n        credentials:\n          username: u\n          password: plain2\n    steps:\n      - run: echo\n",
+	"matrix-include-type-merge":    "on: push\njobs:\n  a:\n    runs-on: ubuntu-latest\n    strategy:\n      matrix:\n        include:\n          - ${{ env }}\n          - ${{ fromJSON('{\"a\":1,\"b\":true,\"c\":\"x\",\"d\":null}') }}\n          - ${{ vars }}\n          - ${{ fromJSON('{\"a\":\"s\",\"e\":[1],\"f\":{\"g\":1}}') }}\n          - a: 1.5\n            h: {i: j}\n    steps:\n      - run: echo ${{ matrix.zz.yy }} ${{ matrix.a.b }} ${{ matrix.e.f }} ${{ matrix.f.g.h }} ${{ matrix.h.i.j }} ${{ toJSON(matrix) == 1 }}\n",
+	"fromjson-case-colliding-keys": "on: push\njobs:\n  a:\n    runs-on: ubuntu-latest\n    steps:\n      - run: |\n          echo ${{ fromJSON('{\"Cfg\": 1, \"cfg\": true, \"CFG\": \"s\"}').cfg.x }} ${{ fromJSON('{\"A\": {\"p\": 1}, \"a\": [1], \"á\": null, \"a\": {\"q\": true}}').a.r }} ${{ fromJSON('[{\"K\": 1, \"k\": \"s\", \"k\": [true]}]')[0].k.z }}\n",
+	"workflow-call-self":           "on:\n  workflow_call:\n    inputs:\n      a:\n        type: string\n      b:\n        type: number\n        required: true\n    secrets:\n      s:\n        required: true\n    outputs:\n      o1:\n        value: ${{ jobs.a.outputs.nope }}\n      o2:\n        value: ${{ jobs.nope.outputs.x }}\njobs:\n  a:\n    runs-on: ubuntu-latest\n    outputs:\n      x: y\n    steps:\n      - run: echo ${{ inputs.zzz }} ${{ secrets.qqq }}\n",
 }
 
 // project-based collision inputs (paths relative to the tree root of C10's layout)
